@@ -67,13 +67,29 @@ class BadConv(object):
         raise RuntimeError("cannot serialise")
 
 
+class ObservingLog(list):
+    """
+    Call log that also records what a concurrently served request would see of the
+    server's configuration at the moment a callable runs (C13: serving never writes
+    the server's Config, not even for the duration of a call)
+    """
+
+    observer = None
+
+    def append(self, item):
+        list.append(self, item)
+        if self.observer is not None:
+            self.seen.append(self.observer())
+
+
 class Registry(object):
     """
     Recording callables.  log: list of (name, args, kwargs)
     """
 
     def __init__(self, L, shape):
-        self.log = []
+        self.log = ObservingLog()
+        self.log.seen = []
         self.L = L
         self.shape = shape
 
@@ -101,8 +117,13 @@ class Registry(object):
         self.log.append(("badconv", args, kwargs))
         return BadConv()
 
+    def retfault(self, *args, **kwargs):
+        # returns (does not raise) an error object it built itself, with the default configuration
+        self.log.append(("retfault", args, kwargs))
+        return jsonrpc.Fault(-32050, "custom fault")
+
     def install(self, dispatcher):
-        for name in ("echo", "add2", "opt", "boom", "retv", "badconv"):
+        for name in ("echo", "add2", "opt", "boom", "retv", "badconv", "retfault"):
             dispatcher.register_function(getattr(self, name), name)
         # names that look like attributes of dict / the dispatcher / dotted
         dispatcher.register_function(self.echo, "keys")
@@ -241,7 +262,7 @@ def config_snapshot(config):
 # ---------------------------------------------------------------------------
 # oracle (from the property texts)
 
-KNOWN_FUNCS = ("echo", "add2", "opt", "boom", "retv", "badconv", "keys", "a.b", "méthode x")
+KNOWN_FUNCS = ("echo", "add2", "opt", "boom", "retv", "badconv", "retfault", "keys", "a.b", "méthode x")
 
 
 def classify(entry):
@@ -264,7 +285,7 @@ def classify(entry):
 
 
 def arity_ok(method, params):
-    if method in ("echo", "boom", "retv", "badconv", "keys", "a.b", "méthode x"):
+    if method in ("echo", "boom", "retv", "badconv", "retfault", "keys", "a.b", "méthode x"):
         return True
     if method == "add2":
         if isinstance(params, list):
@@ -329,6 +350,8 @@ def call_outcome(shape, L, method, params):
         return ("result", normalise(result_value(shape, L))), ("retv", args, kwargs)
     if method == "badconv":
         return ("error", -32603), ("badconv", args, kwargs)
+    if method == "retfault":
+        return ("error", -32050), ("retfault", args, kwargs)
     raise ValueError(method)
 
 
@@ -442,6 +465,9 @@ def run_dispatch(shape, L, request_spec=None, dispatcher=None, registry=None, co
     run.request = build(spec, L)
     run.cfg_before = config_snapshot(run.config)
     run.default_before = config_snapshot(jconfig.DEFAULT)
+    if isinstance(registry.log, ObservingLog):
+        registry.log.seen = []
+        registry.log.observer = lambda: (config_snapshot(run.dispatcher.json_config), config_snapshot(jconfig.DEFAULT))
     run.attrs_before = dict(run.dispatcher.__dict__)
     run.funcs_before = dict(run.dispatcher.funcs)
     custom = None
@@ -649,6 +675,11 @@ def aspect_c13(shape, L, run):
         return 56
     if run.dispatcher.json_config is not run.config:
         return 57
+    # ... and not for the duration of a call either: what a request served meanwhile by
+    # another thread would read while one of this request's callables runs
+    for seen_cfg, seen_default in getattr(run.registry.log, "seen", ()):
+        if seen_cfg != run.cfg_before or seen_default != run.default_before:
+            return 60
     # requests may only share state nobody writes: no attribute of the dispatcher is
     # re-bound by serving a request, and no Config object is published on it (a
     # per-request configuration cached there would be visible, half-initialised,
